@@ -3,3 +3,4 @@
 package kvh
 
 func poisonBlockPool(n int) {}
+func FillBlockPool(n int, content []byte) {}
